@@ -368,6 +368,7 @@ class Merge(Expr):
                     right_index,
                     self.suffixes,
                     self.indicator,
+                    _bcast_side=self.broadcast_side,
                 )
 
         shuffle_npartitions = self.operand("_npartitions") or max(
@@ -701,6 +702,7 @@ class BroadcastJoin(Merge, PartitionsFiltered):
         "suffixes",
         "indicator",
         "_partitions",
+        "_bcast_side",
     ]
     _defaults = {
         "how": "inner",
@@ -711,7 +713,18 @@ class BroadcastJoin(Merge, PartitionsFiltered):
         "suffixes": ("_x", "_y"),
         "indicator": False,
         "_partitions": None,
+        "_bcast_side": None,
     }
+
+    @functools.cached_property
+    def broadcast_side(self):
+        # Merge._lower chooses the side before it repartitions the other
+        # input to ``npartitions``; deriving it again from the new partition
+        # counts can select the opposite side.
+        side = self.operand("_bcast_side")
+        if side is not None:
+            return side
+        return "left" if self.left.npartitions < self.right.npartitions else "right"
 
     def _divisions(self):
         if self.broadcast_side == "left":
